@@ -13,10 +13,10 @@ use std::time::Duration;
 use vcore::refval::RefVal;
 use vcore::report::Report;
 
-const EVENTS: [&str; 23] = [
+const EVENTS: [&str; 24] = [
     "send->live", "send->dead", "send->never", "reg_send->registered", "reg_send->unknown", "exit->live", "monitor_exit->live", "rpc_reply",
     "unknown_control_99", "control_rejected_by_parser", "tick", "undecodable_body", "wrong_marker", "overlong_length", "premature_close", "close",
-    "silence_5s", "silence_9s", "silence_15s", "local:register_later", "reg_send->later", "send->crashed", "local:send_fails",
+    "silence_5s", "silence_9s", "silence_15s", "local:register_later", "reg_send->later", "send->crashed", "local:send_fails", "local:move_name",
 ];
 
 fn execute(seq: &[usize], ctx: &WorkerCtx) -> ExecResult {
@@ -56,6 +56,7 @@ fn execute(seq: &[usize], ctx: &WorkerCtx) -> ExecResult {
         let mut rpc_ideal: Option<String> = None;
         let mut rpc_asis: Option<String> = None;
         let mut later_registered = false;
+        let mut reg_moved = false;
         let mut idle_death = false;
         let mut n = 0i64;
         for &e in seq {
@@ -70,7 +71,14 @@ fn execute(seq: &[usize], ctx: &WorkerCtx) -> ExecResult {
                 "send->dead" => { nw.peer.send(&send_to(&d3, mark.clone())); }
                 "send->crashed" => { nw.peer.send(&send_to(&d4, mark.clone())); }
                 "send->never" => { nw.peer.send(&send_to(&never, mark.clone())); }
-                "reg_send->registered" => { nw.peer.send(&reg_send_to("reg", mark.clone())); delivered = Some(("p2".into(), format!("msg:{}", mark))); }
+                "reg_send->registered" => { nw.peer.send(&reg_send_to("reg", mark.clone())); delivered = Some((if reg_moved { "p1" } else { "p2" }.into(), format!("msg:{}", mark))); }
+                "local:move_name" => {
+                    // the name `reg` changes hands (p2 <-> p1): later messages for it go to the new holder
+                    is_frame = false;
+                    let _ = nw.node.unregister(&Atom::new("reg")).await;
+                    reg_moved = !reg_moved;
+                    let _ = nw.node.register(Atom::new("reg"), if reg_moved { p1.clone() } else { p2.clone() }).await;
+                }
                 "reg_send->unknown" => { nw.peer.send(&reg_send_to("nobody", mark.clone())); }
                 "reg_send->later" => { nw.peer.send(&reg_send_to("later", mark.clone())); if later_registered { delivered = Some(("p1".into(), format!("msg:{}", mark))); } }
                 "exit->live" => { nw.peer.send(&pt(RefVal::Tuple(vec![RefVal::int(3), peer_pid(5), d1.clone(), RefVal::atom("boom")]), None)); delivered = Some(("p1".into(), format!("exit:{}:{}", peer_pid(5), RefVal::atom("boom")))); }
@@ -204,6 +212,40 @@ fn coalesced_exec(nframes: usize, ctx: &WorkerCtx) -> ExecResult {
     })
 }
 
+/// Many undecodable frames in a row (five kinds, 60 frames) do not wear the receiver out: the message after them is delivered
+/// and the connection stays registered.
+fn junk_run_exec(n: &usize, ctx: &WorkerCtx) -> ExecResult {
+    let n = *n;
+    run_rt(async move {
+        let mut res = ExecResult::default();
+        let mut nw = match node_world(ctx, flags_default()).await {
+            Ok(x) => x,
+            Err(e) => { res.violations.push(("could not establish the connection under a conforming peer".into(), json!({"error": e}))); return res; }
+        };
+        nw.w.gates.set_active(&[]);
+        let log: Log = Arc::new(Mutex::new(vec![]));
+        let p1 = nw.node.spawn(Rec { name: "p1".into(), log: log.clone() }).await.unwrap();
+        let d1 = den_pid(&p1);
+        let probe = { let l = log.clone(); move || l.lock().unwrap().len() as u64 };
+        let bodies: [&[u8]; 5] = [&[112, 131, 104, 3, 97], &[112], &[112, 131], &[112, 200, 1], &[131, 68, 0, 104, 1, 97, 1]];
+        for i in 0..n {
+            nw.peer.send(&vcore::proto::frame(bodies[i % 5], 4));
+            if i % 10 == 9 { nw.w.settle(&mut nw.peer, &probe).await; }
+        }
+        let m = RefVal::Tuple(vec![RefVal::atom("after_the_junk"), RefVal::int(n as i64)]);
+        nw.peer.send(&send_to(&d1, m.clone()));
+        nw.w.settle(&mut nw.peer, &probe).await;
+        let got: Vec<String> = log.lock().unwrap().iter().map(|x| x.1.clone()).collect();
+        let registered = nw.node.connections().contains_key(PEER_NAME);
+        if got != vec![format!("msg:{}", m)] || !registered {
+            res.violations.push(("a run of undecodable frames stops the receiver or deregisters the connection".into(), json!({"undecodable_frames": n, "delivered_afterwards": got, "connection_registered": registered})));
+        }
+        res.steps = n as u64 + 1;
+        res.outcome = format!("junk run {}", n);
+        res
+    })
+}
+
 /// A live process that is more than a mailbox (1000 entries) behind: nothing may be dropped.
 fn backlog_exec(n: usize, ctx: &WorkerCtx) -> ExecResult {
     run_rt(async move {
@@ -278,10 +320,12 @@ pub fn run(rep: &Report) -> Value {
     });
     let coalesced: Vec<usize> = vec![0, 1, 2, 5];
     let st_c: Stats = for_all(rep, "first frames in the same segment as the handshake acknowledgement", &coalesced, |n, ctx| coalesced_exec(*n, ctx));
+    let junks: Vec<usize> = vec![15, 16, 17, 60, 300];
+    let st_j: Stats = for_all(rep, "runs of undecodable frames", &junks, |n, ctx| junk_run_exec(n, ctx));
     let backlogs: Vec<usize> = vec![999, 1000, 1001, 1002, 1500];
     let st_b: Stats = for_all(rep, "recipient more than a mailbox behind", &backlogs, |n, ctx| backlog_exec(*n, ctx));
     json!({
-        "states": st.executions + st_b.executions + st_c.executions,
+        "states": st.executions + st_b.executions + st_c.executions + st_j.executions,
         "transitions": st.transitions + st_b.transitions,
         "traces_validated_against_impl": st.executions + st_b.executions + st_c.executions,
         "backlog_scenarios": backlogs,
@@ -291,6 +335,6 @@ pub fn run(rep: &Report) -> Value {
         "distinct_outcomes": st.distinct_outcomes,
         "outcomes": st.outcomes,
         "unstable_failures_not_reported": st.unstable,
-        "rule": format!("every sequence of <= {} events over a 23-event alphabet (sends to live/dead/never-existing pids and to a process whose handler panicked, registered/unknown/late-registered names, exit, monitor exit, rpc reply, unknown control kind, control tuple the parser rejects, tick, undecodable body (truncated term, marker only, marker and version only, unknown tag - by position), wrong marker, over-long length, premature close, close, 5/9/15 s of silence, a local registration, a local send that fails before anything is written) against a real started Node with three instrumented processes and one outstanding remote call, followed by a final valid message; plus five backlog executions in which a process held at a gate is sent 999..1500 messages, an exit signal and traffic for another process (mailbox capacity is 1000); four executions in which the peer's first 0..5 frames (and half of one more) share a TCP segment with the handshake acknowledgement; states = complete executions", max_len),
+        "rule": format!("every sequence of <= {} events over a 24-event alphabet (sends to live/dead/never-existing pids and to a process whose handler panicked, registered/unknown/late-registered names, exit, monitor exit, rpc reply, unknown control kind, control tuple the parser rejects, tick, undecodable body (truncated term, marker only, marker and version only, unknown tag - by position), wrong marker, over-long length, premature close, close, 5/9/15 s of silence, a local registration, a local send that fails before anything is written, a registered name changing hands) against a real started Node with three instrumented processes and one outstanding remote call, followed by a final valid message; plus five backlog executions in which a process held at a gate is sent 999..1500 messages, an exit signal and traffic for another process (mailbox capacity is 1000); four executions in which the peer's first 0..5 frames (and half of one more) share a TCP segment with the handshake acknowledgement; states = complete executions", max_len),
     })
 }
